@@ -277,7 +277,15 @@ def _canon_model_items(mitems, ritems):
 
 def check_cases(ctx, cases, compare=True, shrink=True):
     kept, results = [], []
-    for c in cases:
+    for n, c in enumerate(cases):
+        if n % 50 == 49 and kept:
+            # report as we go: once the property has failed on a couple of dozen inputs the rest of the
+            # batch adds nothing (and a broken tree can make every further history slow)
+            _report(ctx, kept, results, compare, shrink)
+            kept, results = [], []
+            if len(ctx.oracle_failures) >= 25:
+                ctx.note('batch cut short after %d oracle failures' % len(ctx.oracle_failures))
+                return
         try:
             r = run_history(c)
         except common.HarnessError:
@@ -455,12 +463,16 @@ def check_monitor(ctx, scenarios):
     lines, reals = [], []
     for sc in scenarios:
         try:
-            line, real = run_monitor_scenario(sc)
+            line, real, problems = run_monitor_scenario(sc)
         except common.HarnessError:
             raise
         except Exception as e:
-            ctx.oracle_fail({'monitor_loads': sc}, 'Session.load() raised %r while starting the cleanup Monitor'
-                            % (e,), 'monitor_load_raised')
+            ctx.oracle_fail({'monitor_loads': sc}, 'constructing a session / Session.load() raised %r' % (e,),
+                            'monitor_load_raised')
+            continue
+        for what, sig in problems:
+            ctx.oracle_fail({'monitor_loads': sc}, what, sig)
+        if line is None:
             continue
         lines.append(line)
         reals.append((sc, real))
@@ -612,7 +624,7 @@ def search(ctx, around=None):
 
 def replay(ctx, case):
     if 'monitor_loads' in case:
-        line, real = run_monitor_scenario([tuple(x) for x in case['monitor_loads']])
+        line, real, _ = run_monitor_scenario([tuple(x) for x in case['monitor_loads']])
         print('loads:', case['monitor_loads'], '\n  impl :', real, '\n  model:', (ctx.model([line]) or ['?'])[0])
         check_monitor(ctx, [[tuple(x) for x in case['monitor_loads']]])
         return
